@@ -501,7 +501,8 @@ def midi_ticks_to_seconds(
         will be a numpy array with dtype float.
     """
 
-    time_in_seconds = (mpq * midi_ticks) / float(1e6 * ppq)
+    # in double precision (the product of mpq and 32 bit integer ticks overflows)
+    time_in_seconds = (float(mpq) * midi_ticks) / float(1e6 * ppq)
 
     return time_in_seconds
 
